@@ -118,6 +118,46 @@ ValidHeaderVersion(p, height, v) == v = HeaderVersion(p, height)
 
 GraphWeight(p, height, eb) == GraphWeightB(p.baseEdgeBits, height, eb)
 
+(***************************************************************************)
+(* pow/types.rs : ProofOfWork::to_difficulty(height)                        *)
+(*   = Difficulty::from_num( Proof::scaled_difficulty(scale) )              *)
+(*   scale = secondary_scaling            if edge_bits = SECOND_POW_EDGE_BITS*)
+(*         = graph_weight(height, eb)     otherwise  (from_proof_adjusted)  *)
+(*   scaled_difficulty(scale) = min(2^64-1, (scale * 2^64) div max(1, H))   *)
+(*   from_num(n) = max(n, 1)                                                *)
+(* where H = the first 8 bytes (big endian) of blake2b-256 of the proof's   *)
+(* nonces packed at edge_bits bits each.  The hash itself is a primitive;   *)
+(* the arithmetic is not.  TLC integers are 32-bit, so the trace carries    *)
+(* the leading 30 bits of H (h30 = H div 2^34, measured by the harness with *)
+(* its own packing + blake2b, not with Proof::hash) and the specification   *)
+(* decides the quotient from the longest prefix hp of k bits (k <= 30) for  *)
+(* which scale * 2^k still fits:   H in [hp*2^(64-k), (hp+1)*2^(64-k))  so  *)
+(*     (scale*2^k) div (hp+1)  <=  (scale*2^64) div H  <=  (scale*2^k) div hp*)
+(* The two bounds coincide for almost every hash when the quotient is small *)
+(* against 2^k (AutomatedTesting: scale 20, k = 26); where they do not, the *)
+(* value is left free inside the bracket.                                   *)
+(***************************************************************************)
+ProofScale(p, height, eb, scaling) ==
+  IF eb = SECOND_POW_EDGE_BITS THEN scaling ELSE GraphWeight(p, height, eb)
+
+RECURSIVE PrefixBits(_, _)
+PrefixBits(scale, k) == IF k = 0 \/ scale <= 2147483647 \div Pow2(k) THEN k ELSE PrefixBits(scale, k - 1)
+
+ProofDifficultyLo(scale, h30) ==
+  LET k  == PrefixBits(scale, 30)
+      hp == h30 \div Pow2(30 - k)
+  IN Max(1, (scale * Pow2(k)) \div (hp + 1))
+
+(* 0: no upper bound can be stated with this prefix (hp = 0: the hash has k leading zero bits) *)
+ProofDifficultyHi(scale, h30) ==
+  LET k  == PrefixBits(scale, 30)
+      hp == h30 \div Pow2(30 - k)
+  IN IF hp = 0 THEN 0 ELSE Max(1, (scale * Pow2(k)) \div hp)
+
+ProofDifficultyOK(scale, h30, d) ==
+  /\ d >= ProofDifficultyLo(scale, h30)
+  /\ (ProofDifficultyHi(scale, h30) # 0 => d <= ProofDifficultyHi(scale, h30))
+
 (* secondary_pow_ratio *)
 SecondaryPowRatio(height) == SatSub(90, height \div ((2 * YEAR_HEIGHT) \div 90))
 
